@@ -359,6 +359,17 @@ def main(tier):
         v_ = fm.classify(f.encode())
         if v_.cls == 'VALID':
             mon.check(f.encode(), 'long-decimals', expect='VALID')
+    # subscripts and TOTALS a hair away from an integer (a count that is 'cleaned up' to the integer shows only here)
+    for k in range(200 if quick else 4000):
+        e1, e2, e3 = rng.sample(wl, 3)
+        n = rng.randint(1, 12)
+        eps = rng.choice(['0000000001', '000000004', '00000001', '0000001', '000000000005'])
+        below = '%d.%s' % (n - 1, '9' * len(eps)) if rng.random() < 0.5 else None
+        sub = below[:-1] + rng.choice('5789') if below else '%d.%s' % (n, eps)
+        forms = [e1 + sub + e2, e1 + sub + e2 + '2' + e3, '(' + e1 + sub[:-1] + ')2' + e2, e1 + '0.5(' + e1 + sub + ')' + e2]
+        for f in forms:
+            if fm.classify(f.encode()).cls == 'VALID':
+                mon.check(f.encode(), 'near-integer', expect='VALID')
     # hand-written strings of every rejection class (so that each class is exercised whatever the seed)
     for s in ['', ' ', 'H 2', 'H2O ', 'H+', 'H2,5', 'H2O\n', '\xe9', 'H)', '(H', ')H(', '((H)', 'Xx', 'Ha', 'hO', 'Hoo', 'H0', 'H0.0', 'H00', '(H)0', 'H2.5.1', 'H..', 'H.',
               '.', '(.)', 'Rf', 'Db2O', 'H(Sg)', 'Bh0.5', '2H', '(2H)', 'H(2)', '.Cl', '(.No4)', 'Yb4(Mg)a2.30Zr3', '.uNe', '(H)a', 'H1.a', '.5H', 'H.5', 'H5.', '()', 'H()',
@@ -414,6 +425,24 @@ def main(tier):
             ck.violation('c07:add_compound_data:wrong-elements', 'elements %r, expected the ascending union %r' % (r['Elements'], zs), wit)
         elif any(not abs(x - exp[z]) <= TOL * exp[z] for x, z in zip(r['massFractions'], zs)):
             ck.violation('c07:add_compound_data:wrong-massFractions', 'mass fractions differ from wA*fA + wB*fB', wit)
+    # (5b) chains: the result of one combination (fractions summing to wA + wB, not to 1) is an operand of the next
+    n_chain = 0
+    for k in range(400 if quick else 8000):
+        sa, sb, sc = rng.choice(valid_pool), rng.choice(valid_pool), rng.choice(valid_pool)
+        wa, wb, w1, wc = rng.uniform(0.05, 3.0), rng.uniform(0.05, 3.0), rng.uniform(0.05, 3.0), rng.uniform(0.05, 3.0)
+        r = X.add_chain(sa.encode(), wa, sb.encode(), wb, w1, sc.encode(), wc)
+        if isinstance(r, xl.Err):
+            continue
+        n_chain += 1
+        ma, mb, mc = parsed(sa), parsed(sb), parsed(sc)
+        exp = collections.defaultdict(float)
+        for m_, w_ in ((ma, w1 * wa), (mb, w1 * wb), (mc, wc)):
+            for z, f in zip(m_['Elements'], m_['massFractions']):
+                exp[z] += w_ * f
+        zs = sorted(exp)
+        if r['Elements'] != zs or any(not abs(x - exp[z]) <= 4 * TOL * exp[z] for x, z in zip(r['massFractions'], zs)):
+            ck.violation('c07:add_compound_data:chained-combination-wrong', 'add(add(A, wA, B, wB), w1, C, wC) differs from w1 (wA fA + wB fB) + wC fC',
+                         dict(A=sa, wA=wa, B=sb, wB=wb, w1=w1, C=sc, wC=wc, returned=r, expected=dict(Elements=zs, massFractions=[exp[z] for z in zs])))
     # (6) locale monitor -------------------------------------------------------------------------------------------------------
     st = dict(locale_calls=0)
     lf = [p for p in pool if '.' in p][:1500 if quick else 20000]
